@@ -1,17 +1,26 @@
 """C16 — PUS verification tracker state machine.
 
-op 800: one case = a whole history, every argument one call (see Run/DispVerif.v):
-  [0, id6] add_tc   [1, id6, sub, has_step, step] add_tm   [2, id6] remove_entry   [3] remove_completed_entries
+op 800: one case = a whole history, every argument one step (see Run/DispVerif.v):
+  [0, id6, path] add_tc   [1, id6, sub, has_step, step, path] add_tm   [2, id6, path] remove_entry
+  [3] remove_completed_entries   [4, id6, what, value] the caller edits the telecommand objects it built with
+  that header (seq_count / apid / sequence flags / packet type / secondary header flag setters): no tracker call
   id6 = [ccsds_version, packet type, sec-header flag, apid, sequence flags, sequence count]
+  path (optional, default 0) = how the caller builds the object: PusTc(...), PusTc.from_sp_header,
+  from_composite_fields, unpack of the packed telecommand, sp_header assignment, setters; Service1Tm(...) with
+  RequestId(...) / RequestId.unpack, the create_*_tm helpers, Service1Tm.unpack / from_tm of the packed report,
+  helper + the telecommand edited before the report is fed; RequestId(...), unpack, from_sp_header, from_pus_tc.
+  Every TmCheckResult handed out is kept and re-read after every later step and at the end of the history.
 op 801: one transition: a0 = status [recvd, accepted, started, step, completed, step_list...] installed directly
   in the dictionary, a1 = [sub, has_step, step] fed through the real add_tm.
 Observed after every call: the return value and the whole dictionary (insertion order)."""
 import itertools
-from spacepackets.ccsds.spacepacket import PacketId, PacketSeqCtrl, PacketType, SequenceFlags
-from spacepackets.ecss import PusTc
+from spacepackets.ccsds.spacepacket import PacketId, PacketSeqCtrl, PacketType, SequenceFlags, SpacePacketHeader
+from spacepackets.ecss import PusTc, PusTm
+from spacepackets.ecss.tc import PusTcDataFieldHeader
 from spacepackets.ecss.fields import PacketFieldEnum
+from spacepackets.ecss import pus_1_verification as p1
 from spacepackets.ecss.pus_1_verification import (Service1Tm, VerificationParams, RequestId, Subservice,
-                                                  FailureNotice)
+                                                  FailureNotice, UnpackParams)
 from spacepackets.ecss.pus_verificator import PusVerificator, VerificationStatus, StatusField
 from harness.core import classify_exception
 
@@ -38,38 +47,108 @@ ASSUMPTIONS = [
     "the documented state machine is the transition table of DESIGN.md 5.C16 (Spec/VerificatorSpec.v): 'all "
     "verifications received' is evaluated at the report that terminates the sequence, with the fields as they "
     "are at that moment",
+    "object identity is modelled where the property speaks about answers: a TmCheckResult is a fresh object per call "
+    "(completed flag never rewritten) whose status is the dictionary's own VerificationStatus object until remove_entry / "
+    "remove_completed_entries detach it (Model.Verificator.hrun / refresh); handing out the dictionary's status object and "
+    "the verif_dict getter returning the internal dictionary are design decisions, not checked as defects",
+    "the tracker and the reports own their request ids (copies since /repo 1eb149b): a caller editing its telecommand "
+    "objects afterwards is not a tracker operation (HCallerEdit)",
 ]
 TRUSTED = []
 TS = bytes(7)
 
 
-def _reqid(i):
+def _hdr(i, data_len=0):
     v, t, s, ap, fl, c = i
+    return SpacePacketHeader(PacketType(t), ap, c, data_len, bool(s), SequenceFlags(fl), v)
+
+
+def _tc(i, path=0):
+    """a telecommand object whose space packet header carries id6, built along the requested path
+    (or, where that path cannot produce the header, by assigning the header)"""
+    v, t, s, ap, fl, c = i
+    std = (v, t, s, fl) == (0, 1, 1, 3)   # what PusTc(...) always produces
+    path %= 6
+    if path == 0 and std:
+        return PusTc(apid=ap, seq_count=c, service=17, subservice=1)
+    if path == 1 and (t, s) == (1, 1):    # from_sp_header forces packet type TC and the secondary header flag
+        return PusTc.from_sp_header(_hdr(i), service=17, subservice=1)
+    if path == 2 and t == 1:              # from_composite_fields refuses packet type TM
+        return PusTc.from_composite_fields(_hdr(i, 6), PusTcDataFieldHeader(17, 1))
+    if path == 5 and std:                 # setters on an empty telecommand
+        tc = PusTc.empty()
+        tc.apid = ap
+        tc.seq_count = c
+        return tc
+    tc = PusTc(service=17, subservice=1)
+    tc.sp_header = _hdr(i, tc.sp_header.data_len)
+    if path == 3:                         # through the wire format
+        raw = tc.pack()
+        return PusTc.unpack(bytes(raw) if c % 2 else raw)
+    return tc
+
+
+def _reqid(i, path=0, caller=None):
+    v, t, s, ap, fl, c = i
+    path %= 4
+    if path == 1:
+        return RequestId.unpack(bytes(RequestId(PacketId(PacketType(t), bool(s), ap), PacketSeqCtrl(SequenceFlags(fl), c), v).pack()))
+    if path == 2:
+        return RequestId.from_sp_header(_hdr(i))
+    if path == 3:
+        tc = _tc(i, 4)
+        if caller is not None:
+            caller.tcs.setdefault(tuple(i), []).append(tc)
+        return RequestId.from_pus_tc(tc)
     return RequestId(PacketId(PacketType(t), bool(s), ap), PacketSeqCtrl(SequenceFlags(fl), c), v)
-
-
-def _tc(i):
-    v, t, s, ap, fl, c = i
-    assert (v, t, s, fl) == (0, 1, 1, 3), "PusTc always has version 0, type TC, secondary header, unsegmented"
-    return PusTc(apid=ap, seq_count=c, service=17, subservice=1)
 
 
 def _step(val):
     return PacketFieldEnum.with_byte_size(1 if val < 256 else 2 if val < 65536 else 4, val)
 
 
-def _tm(i, sub, has_step, step):
-    rid = _reqid(i)
+def _notice():
+    return FailureNotice(PacketFieldEnum.with_byte_size(1, 8), data=bytes([0, 1]))
+
+
+_HELPERS = {1: "create_acceptance_success_tm", 2: "create_acceptance_failure_tm", 3: "create_start_success_tm",
+            4: "create_start_failure_tm", 5: "create_step_success_tm", 6: "create_step_failure_tm",
+            7: "create_completion_success_tm", 8: "create_completion_failure_tm"}
+
+
+def _tm(i, sub, has_step, step, path=0, caller=None):
+    path %= 6
     sv = Subservice(sub) if 0 <= sub <= 8 else sub
     if sub in (5, 6) and not has_step:
         # a report object without step id (constructor default parameters, request id set afterwards)
         tm = Service1Tm(apid=i[3], subservice=sv, timestamp=TS)
-        tm.tc_req_id = rid
+        tm.tc_req_id = _reqid(i, path, caller)
         return tm
     assert sub in (5, 6) or not has_step
-    fn = FailureNotice(PacketFieldEnum.with_byte_size(1, 8), data=bytes([0, 1])) if sub % 2 == 0 else None
-    return Service1Tm(apid=i[3], subservice=sv, timestamp=TS,
-                      verif_params=VerificationParams(rid, step_id=_step(step) if has_step else None, failure_notice=fn))
+    if path in (2, 5) and 1 <= sub <= 8:
+        # the helper functions read the request id from a telecommand object
+        tc = _tc(i, 4)
+        if caller is not None:
+            caller.tcs.setdefault(tuple(i), []).append(tc)
+        args = [i[3], tc] + ([_step(step)] if sub in (5, 6) else []) + ([_notice()] if sub % 2 == 0 else []) + [TS]
+        tm = getattr(p1, _HELPERS[sub])(*args)
+        if path == 5:
+            # the caller goes on using its telecommand object (next sequence count, other APID) before it
+            # feeds the report: the report is about the telecommand as it was
+            tc.seq_count = (i[5] + 1) % 16384
+            tc.apid = (i[3] + 1) % 2048
+            tc.sp_header.seq_flags = SequenceFlags((i[4] + 1) % 4)
+        return tm
+    fn = _notice() if sub % 2 == 0 else None
+    tm = Service1Tm(apid=i[3], subservice=sv, timestamp=TS,
+                    verif_params=VerificationParams(_reqid(i, 1 if path == 1 else 0), step_id=_step(step) if has_step else None, failure_notice=fn))
+    if path in (3, 4) and 1 <= sub <= 8:
+        raw = tm.pack()
+        up = UnpackParams(len(TS), bytes_step_id=_step(step).len() if has_step else 1, bytes_err_code=1)
+        if path == 3:
+            return Service1Tm.unpack(bytes(raw) if step % 2 else raw, up)
+        return Service1Tm.from_tm(PusTm.unpack(raw, len(TS)), up)
+    return tm
 
 
 def _st(s):
@@ -81,25 +160,62 @@ def _dict(v):
     return [[len(items)]] + [[k.as_u32()] + _st(s) for k, s in items]
 
 
-def _call(v, o):
-    try:
-        if o and o[0] == 0:
-            return [0, int(v.add_tc(_tc(o[1:7])))]
-        if o and o[0] == 1:
-            r = v.add_tm(_tm(o[1:7], o[7], o[8], o[9]))
-            if r is None:
+class _Caller:
+    """the user of one tracker: keeps the telecommand objects it built and every answer it was given"""
+    def __init__(self, v=None):
+        self.v = v if v is not None else PusVerificator()
+        self.tcs = {}        # id6 -> telecommand objects built with that header
+        self.kept = []       # (result object, completed flag when handed out, status object when handed out)
+        self.rewritten = 0
+
+    def recheck(self):
+        for r, c, st in self.kept:
+            if bool(r.completed) != bool(c) or r.status is not st:
+                self.rewritten += 1
+
+    def call(self, o):
+        v = self.v
+        try:
+            if o and o[0] == 0:
+                tc = _tc(o[1:7], o[7] if len(o) > 7 else 0)
+                self.tcs.setdefault(tuple(o[1:7]), []).append(tc)
+                return [0, int(v.add_tc(tc))]
+            if o and o[0] == 1:
+                r = v.add_tm(_tm(o[1:7], o[7], o[8], o[9], o[10] if len(o) > 10 else 0, self))
+                if r is None:
+                    return [1]
+                self.kept.append((r, r.completed, r.status))
+                return [2, int(r.completed)] + _st(r.status)
+            if o and o[0] == 2:
+                return [0, int(v.remove_entry(_reqid(o[1:7], o[7] if len(o) > 7 else 0, self)))]
+            if o and o[0] == 4:
+                for tc in self.tcs.get(tuple(o[1:7]), []):
+                    what, val = o[7], o[8]
+                    if what == 0:
+                        tc.seq_count = val % 16384
+                    elif what == 1:
+                        tc.apid = val % 2048
+                    elif what == 2:
+                        tc.sp_header.seq_flags = SequenceFlags(val % 4)
+                    elif what == 3:
+                        tc.sp_header.packet_type = PacketType(val % 2)
+                    else:
+                        tc.sp_header.sec_header_flag = bool(val % 2)
                 return [1]
-            assert r.status is v.verif_dict[_reqid(o[1:7])]
-            return [2, int(r.completed)] + _st(r.status)
-        if o and o[0] == 2:
-            return [0, int(v.remove_entry(_reqid(o[1:7])))]
-        r = v.remove_completed_entries()
-        assert r is None
-        return [1]
-    except AssertionError:
-        raise
-    except Exception as e:  # the exception class is part of the observation, the history goes on
-        return [3, classify_exception(e)]
+            r = v.remove_completed_entries()
+            assert r is None
+            return [1]
+        except AssertionError:
+            raise
+        except Exception as e:  # the exception class is part of the observation, the history goes on
+            return [3, classify_exception(e)]
+
+    def final(self):
+        out = [[len(self.kept)]]
+        for r, c, st in self.kept:
+            live = any(r.status is s for s in self.v.verif_dict.values())
+            out.append([int(r.completed), int(live)] + _st(r.status))
+        return out + [[self.rewritten]]
 
 
 FIXED_ID = [0, 1, 1, 5, 3, 7]
@@ -107,11 +223,12 @@ FIXED_ID = [0, 1, 1, 5, 3, 7]
 
 def impl(op, a):
     if op == 800:
-        v = PusVerificator()
+        c = _Caller()
         out = []
         for o in a:
-            out += [_call(v, o)] + _dict(v)
-        return out
+            out += [c.call(o)] + _dict(c.v)
+            c.recheck()
+        return out + c.final()
     if op == 801:
         s = a[0]
         v = PusVerificator()
@@ -119,7 +236,7 @@ def impl(op, a):
             all_verifs_recvd=bool(s[0]), accepted=StatusField(s[1]), started=StatusField(s[2]),
             step=StatusField(s[3]), step_list=list(s[5:]), completed=StatusField(s[4]))
         sub, hs, st = a[1]
-        return [_call(v, [1] + FIXED_ID + [sub, hs, st])] + _dict(v)
+        return [_Caller(v).call([1] + FIXED_ID + [sub, hs, st])] + _dict(v)
     raise RuntimeError("bad op")
 
 
@@ -165,12 +282,43 @@ STRANGERS = [[1, 1, 1, 5, 3, 7], [0, 0, 1, 5, 3, 7], [0, 1, 0, 5, 3, 7], [0, 1, 
              [0, 0, 0, 0, 0, 0]]
 
 
-def tm(i, sub, step=None):
-    return [1] + i + [sub, 1 if step is not None else 0, step if step is not None else 0]
+def tm(i, sub, step=None, path=None):
+    return [1] + i + [sub, 1 if step is not None else 0, step if step is not None else 0] + ([path] if path is not None else [])
 
 
-def tm_auto(i, sub, rng):
-    return tm(i, sub, rng.choice([0, 1, 2, 255, 256, 70000]) if sub in (5, 6) else None)
+def tm_auto(i, sub, rng, path=None):
+    return tm(i, sub, rng.choice([0, 1, 2, 255, 256, 70000]) if sub in (5, 6) else None, path)
+
+
+def id_of_key(k):
+    return [k >> 29 & 7, k >> 28 & 1, k >> 27 & 1, k >> 16 & 0x7FF, k >> 14 & 3, k & 0x3FFF]
+
+
+def bit_neighbours(i):
+    """the 32 request ids that differ from i in exactly one bit of the 32-bit value (3 version bits, packet
+    type, secondary header flag, 11 APID bits, 2 sequence flag bits, 14 sequence count bits)"""
+    k = key_of(i)
+    return [id_of_key(k ^ (1 << b)) for b in range(32)]
+
+
+BASES = [[0, 1, 1, 5, 3, 7], [0, 1, 1, 0x7FF, 3, 0x3FFF], [0, 1, 1, 0, 3, 0], [3, 1, 1, 0x2AA, 3, 0x1555],
+         [7, 1, 0, 0x400, 0, 0x2000], [0, 0, 0, 1, 1, 1]]
+
+
+def random_op(rng, pool, strangers, p_edit=0.0):
+    """one step over the telecommands of pool (registered now and then) and strangers (never registered)"""
+    x = rng.random()
+    if x < 0.22:
+        return [0] + rng.choice(pool) + [rng.randrange(6)]
+    if x < 0.80:
+        i = rng.choice(pool * 3 + strangers) if strangers else rng.choice(pool)
+        sub = rng.choice([1, 2, 3, 4, 5, 6, 7, 8] * 6 + [0, 9, 255])
+        return tm_auto(i, sub, rng, rng.randrange(5))
+    if x < 0.80 + p_edit:
+        return [4] + rng.choice(pool) + [rng.randrange(5), rng.randrange(16384)]
+    if x < 0.93:
+        return [2] + rng.choice(pool + strangers[:2]) + [rng.randrange(4)]
+    return [3]
 
 
 def streams(tier, rng):
@@ -231,17 +379,86 @@ def streams(tier, rng):
             cases.append((800, ops))
         cases.append((800, [tm(TCS[0], sub, None)]))   # unknown id: no attribute access at all
     yield "step_reports_without_step_id", "exact", cases
+    # 6. telecommands that differ in ONE bit of the request id (each of the 32 bits: version, packet type,
+    #    secondary header flag, APID, sequence flags, sequence count), for several base ids, every way of
+    #    building the objects: the neighbour is unknown until it is registered, is not a duplicate, is tracked
+    #    and removed independently
+    cases = []
+    for bi, base in enumerate(BASES):
+        for b, nb in enumerate(bit_neighbours(base)):
+            p = (b + bi) % 6
+            ops = [[0] + base + [p], tm(nb, 1, None, p % 5), [2] + nb + [p % 4], [0] + nb + [(p + 3) % 6], [0] + nb + [p],
+                   tm(base, 2, None, (p + 1) % 5), tm(nb, 3, None, (p + 2) % 5), tm(nb, 5, b, (p + 3) % 5), tm(base, 1, None, p % 5),
+                   [3], tm(nb, 7, None, (p + 4) % 5), [2] + base + [(p + 1) % 4], [2] + nb + [(p + 2) % 4]]
+            cases.append((800, ops))
+    yield "exh_single_bit_neighbours", "exact", cases
+    # 6b. random histories (<= 12 steps) over a base telecommand and several of its one-bit neighbours
+    cases = []
+    for _ in range(20000 if big else 2500):
+        base = rng.choice(BASES)
+        nbs = bit_neighbours(base)
+        pool = [base] + rng.sample(nbs, rng.randrange(1, 4))
+        strangers = rng.sample([n for n in nbs if n not in pool], 3)
+        cases.append((800, [random_op(rng, pool, strangers) for _ in range(rng.randrange(2, 13))]))
+    yield "random_histories_bit_neighbours", "exact", cases
+    # 7. every construction path of telecommand x report x request id, on ordinary and unusual headers
+    cases = []
+    for i in [[0, 1, 1, 5, 3, 7], [2, 1, 1, 5, 3, 7], [0, 1, 0, 5, 3, 7], [0, 1, 1, 5, 1, 7], [5, 0, 0, 0x7FF, 0, 0x3FFF]]:
+        j = list(i); j[5] ^= 1
+        for pt, pr, pq in itertools.product(range(6), range(6), range(4)):
+            ops = [[0] + i + [pt], [0] + i + [(pt + 1) % 6], tm(i, 1, None, pr), tm(j, 1, None, pr), tm(i, 3, None, pr), tm(i, 5, 300, pr),
+                   tm(i, 6, 70000, pr), [2] + j + [pq], [0] + j + [pt], tm(j, 8, None, pr), tm(i, 7, None, pr), [2] + i + [pq], [3]]
+            cases.append((800, ops))
+    yield "construction_paths", "exact", cases
+    # 8. answers kept and re-read later: several reports per telecommand, removal and re-registration in
+    #    between (the old answers keep the state their telecommand had when it was removed)
+    cases = []
+    for _ in range(20000 if big else 2500):
+        pool = rng.sample(TCS + [[1, 1, 1, 5, 3, 7], [0, 1, 1, 5, 3, 9]], rng.randrange(1, 4))
+        ops = [[0] + t + [rng.randrange(6)] for t in pool]
+        for _ in range(rng.randrange(2, 11)):
+            x = rng.random()
+            t = rng.choice(pool)
+            if x < 0.7:
+                ops.append(tm_auto(t, rng.randrange(1, 9), rng, rng.randrange(5)))
+            elif x < 0.8:
+                ops += [[2] + t + [rng.randrange(4)], [0] + t + [rng.randrange(6)]]
+            elif x < 0.9:
+                ops += [[3], [0] + t + [rng.randrange(6)]]
+            else:
+                ops.append([0] + t)
+        cases.append((800, ops))
+    yield "kept_results_reread", "exact", cases
+    # 9. the caller goes on using its telecommand objects (setters) after registering them / after building
+    #    a report from them: the tracker and the report keep the request id they were given
+    cases = []
+    for _ in range(12000 if big else 1500):
+        pool = rng.sample(TCS + [[0, 1, 1, 6, 3, 7], [0, 1, 1, 5, 3, 6]], rng.randrange(1, 4))
+        ops = []
+        for _ in range(rng.randrange(2, 13)):
+            o = random_op(rng, pool, STRANGERS[:3], p_edit=0.12)
+            if o[0] == 1 and 1 <= o[7] <= 8 and rng.random() < 0.3:
+                o[-1] = 5
+            ops.append(o)
+        cases.append((800, ops))
+    for i in TCS[:2]:
+        for what, val in itertools.product(range(5), (0, 1, 8, 16383)):
+            for pt in range(6):
+                ops = [[0] + i + [pt], [4] + i + [what, val], tm(i, 1), [0] + i + [pt], tm(i, 7, None, 5), [4] + i + [what, val + 1], [2] + i, [3]]
+                cases.append((800, ops))
+    yield "caller_edits_its_telecommands", "exact", cases
 
 
 # ------------------------------------------------------------------ oracle
 def split_obs(ires, nops):
+    """[(return value, dictionary)] per step, and what follows them (the kept results)"""
     out, i = [], 1
     for _ in range(nops):
         ret = ires[i]
         n = ires[i + 1][0]
         out.append((ret, ires[i + 2:i + 2 + n]))
         i += 2 + n
-    return out
+    return out, ires[i:]
 
 
 def _in_spec(ops):
@@ -257,6 +474,8 @@ def _spec_ops(ops):
             out.append([1, key_of(o[1:7]), o[7], o[9]])
         elif o and o[0] == 2:
             out.append([2, key_of(o[1:7])])
+        elif o and o[0] == 4:
+            pass        # not a tracker operation: the documented state machine does not see it
         else:
             out.append([3])
     return out
@@ -285,7 +504,7 @@ def oracle(case, ires, sres):
         st, (sub, hs, k) = a[0], a[1]
         if sub in (5, 6) and not hs:
             return None
-        (ret, d), = split_obs(ires, 1)
+        (ret, d), = split_obs(ires, 1)[0]
         exp = table(sub, k, st)
         if exp is None:
             if ret[0] != 3 or ret[1] not in (1, 2, 3):
@@ -312,10 +531,12 @@ def oracle(case, ires, sres):
         return None
     if op != 800 or not _in_spec(a):
         return None
-    obs = split_obs(ires, len(a))
-    # reference tracker: total map key -> status, driven by the table
+    obs, rest = split_obs(ires, len(a))
+    # reference tracker: total map key -> status, driven by the table.  A status is one list object per
+    # registration, updated in place; an answer refers to the status object of its telecommand
     ref, order = {}, []
     prev = []
+    answers = []       # (status object, completed flag, key)
     for o, (ret, d) in zip(a, obs):
         kind = o[0] if o else 3
         k = key_of(o[1:7]) if kind in (0, 1, 2) else None
@@ -333,7 +554,10 @@ def oracle(case, ires, sres):
                 if t is None:
                     exp_ret = [3, 1]
                 else:
-                    ref[k] = t[0]; exp_ret = [2, int(t[1])] + t[0]
+                    ref[k][:] = t[0]; exp_ret = [2, int(t[1])] + t[0]
+                    answers.append((ref[k], int(t[1]), k))
+        elif kind == 4:
+            exp_ret = [1]
         elif kind == 2:
             if k in ref:
                 del ref[k]; order.remove(k); exp_ret = [0, 1]
@@ -354,17 +578,34 @@ def oracle(case, ires, sres):
                 sig = "remove_entry"
             elif kind == 3:
                 sig = "remove_completed_entries"
+            elif kind == 4:
+                sig = "caller-edit-reaches-tracker"
             elif any(x[0] != k and x not in d for x in prev):
                 sig = "isolation"
             else:
                 sig = "state-machine"
             return ("C16/PusVerificator/" + sig, "call %s returned %s, dictionary %s; documented state machine: %s, %s" % (o, ret, d, exp_ret, exp_d))
         prev = d
+    # every answer handed out, re-read at the end of the history (and watched after every step)
+    if not rest or rest[0] != [len(answers)] or len(rest) != len(answers) + 2:
+        return ("C16/add_tm/result-kept", "%d answers expected at the end of the history, got %s" % (len(answers), rest[:1]))
+    for n, ((st, done, k), got) in enumerate(zip(answers, rest[1:-1])):
+        if got[0] != done:
+            return ("C16/add_tm/result-rewritten-later", "answer %d (request id %d) was handed out with completed=%d and reads completed=%d at the end of the history %s" % (n, k, done, got[0], a))
+        if got[2:] != st or got[1] != int(ref.get(k) is st):
+            return ("C16/add_tm/result-status-object", "answer %d (request id %d) reads status %s (dictionary's object: %d) at the end of the history, its telecommand's status is %s (dictionary's object: %d) %s" % (n, k, got[2:], got[1], st, int(ref.get(k) is st), a))
+    if rest[-1] != [0]:
+        return ("C16/add_tm/result-rewritten-later", "the completed flag or the status reference of an answer handed out earlier changed during a later step (%s step/answer pairs) %s" % (rest[-1], a))
     # the same history through the Coq spec (total map + table)
     if sres:
         keys = _keys(a)
         s, i = sres[0], 1
+        smap = {}
         for o, (ret, d) in zip(a, obs):
+            if o and o[0] == 4:       # no tracker operation: the dictionary must read as after the previous step
+                if {l[0]: l[1:] for l in d} != smap:
+                    return ("C16/PusVerificator/caller-edit-reaches-tracker", "step %s changed the dictionary to %s" % (o, d))
+                continue
             sret = s[i]
             smap = {l[0]: l[2:] for l in s[i + 1:i + 1 + len(keys)] if l[1] == 1}
             i += 1 + len(keys)
